@@ -46,3 +46,24 @@ PROPS["C13"] = dict(
     outside="RFC byte vectors (need concrete SHA-256)",
     assumptions=["hash = uninterpreted streaming function"],
 )
+
+MIMC = ["ecc/bn254/fr/mimc", "ecc/bls12-377/fr/mimc", "ecc/bls12-381/fr/mimc", "ecc/bls24-315/fr/mimc",
+        "ecc/bls24-317/fr/mimc", "ecc/bw6-633/fr/mimc", "ecc/bw6-761/fr/mimc", "ecc/grumpkin/fr/mimc"]
+
+MIMC_D = {"ecc/bls12-377/fr/mimc": 17, "ecc/bls24-317/fr/mimc": 7}  # documented exponents (others: 5)
+
+PROPS["C14"] = dict(
+    jobs=[Job(m, ["C14/mimc_write.go.tmpl", "C14/mimc_stream.go.tmpl", "C14/mimc_round.go.tmpl"],
+              params=dict(FrPath="github.com/consensys/gnark-crypto/" + m[:-5], FrSuffix=m[4:-5], MimcD=MIMC_D.get(m, 5))) for m in MIMC],
+    level_text="Bounded proof, per MiMC package (8 curves): block parser on arbitrary byte slices (exact limb-level code), "
+               "streaming laws and Miyaguchi-Preneel/round-function structure with field elements interpreted by their "
+               "canonical value; every obligation unsat in z3/cvc5, counterexamples replayed natively.",
+    level_note="Streaming/round harnesses rely on the felt interpretation of fr.Element (linear ops exact mod q, products "
+               "uninterpreted modulo associativity/commutativity, byte conversions exact): these are the contracts of C01/C08. "
+               "encrypt is an uninterpreted function in the streaming harnesses; round constants are symbolic (their Keccak "
+               "derivation is outside the claim).",
+    bounds="Write: len(p) <= 2*BlockSize+1, spare capacity <= BlockSize, all byte values; streaming: 2 blocks, "
+           "histories Write/Write/Sum/Sum/Reset/State/SetState as written in the harness; round: 2 blocks, all rounds",
+    outside="Poseidon2, SIS (not built yet); constants derivation; messages longer than 2 blocks",
+    assumptions=["felt summaries of fr.Element operations", "hash registry not exercised"],
+)
